@@ -69,6 +69,9 @@ def ext_call(I, fsv, args, kwargs, node):
         return mk_int(z3.Int(I.path.fresh_name('time_ns')))
     if name == 'struct.unpack':
         return struct_unpack(I, args, node)
+    if name.startswith('operator.') and name.split('.')[1] in ('__eq__', '__ne__', '__lt__', '__le__', '__gt__', '__ge__'):
+        from .calls import operator_module_call
+        return operator_module_call(I, name.split('.')[1], args, node)
     if name in ('logging.getLogger',):
         return SV('ext', 'logger')
     raise OutOfSubset(f"call of external {name} (line {getattr(node, 'lineno', '?')})")
